@@ -587,8 +587,11 @@ func (st *State) goArg(caller *frame, v Value) (interface{}, bool) {
 						return "<nested>", true
 					}
 					st.fmtDepth++
-					r := st.call(m, []Value{x.V}, caller)
+					r, okCall := st.callForFormatting(m, []Value{x.V}, caller)
 					st.fmtDepth--
+					if !okCall {
+						return "<" + types.TypeString(x.T, func(p *types.Package) string { return p.Name() }) + ">", true
+					}
 					if s, ok := r.(Str); ok && s.B == nil {
 						return s.S, true
 					}
